@@ -20,7 +20,7 @@ func init() { register(c03{}) }
 
 func (c03) ID() string { return "C03" }
 func (c03) Rule() string {
-	return "systematic: every location of gen.Universe(L<=5|6, arity<=3) as the single labelled feature (keys gene and source) x every Delete/Erase (i,n) with 0<=i, i+n<=L and every Slice window (s,e) in [-L,L]^2 incl. negative spellings and wrap-around (empty windows excluded; ambiguous spans and full-length parts excluded for wrap-around); seeded: lengths<=60, tables<=8 features incl. source features, BasicSequence and seqio.GenBank hosts, GenBank hosts carry generated REFERENCE '(bases a to b; c to d)' lines whose expected clipping is computed by interval arithmetic. Oracle: residues per the window arithmetic; surviving features' base atoms == before minus removed in order and strand; cut ends open (all markers stripped on source after Slice), uncut ends keep their marker (markers on a junction of two abutting expected parts are don't-care); Delete: a feature that lost everything consists of sites at the cut; Erase: it is absent unless source; Slice: features with no base in the window are absent (a feature with a site inside the window is don't-care); coordinates within [0,newlen]; slice is linear; references clipped, re-based, dropped, renumbered. non-trivial: some feature shares a residue with the removed/kept boundary region; distinct: canonical case text. CLI layer: gts delete [-e], gts extract [-v] and gts split of the real binary (--no-cache) on generated records and the corpus record, single and as streams, judged by the C15 models (residues minus the union of the located regions; one record per distinct region, with -v the maximal unlocated stretches; pieces concatenate to the input; a stream's output equals the outputs of its records alone). A third of the GenBank hosts are AA records (REFERENCE lines count residues); a site-only feature that lies clear of the erased stretch must survive Erase."
+	return "systematic: every location of gen.Universe(L<=5|6, arity<=3) as the single labelled feature (keys gene and source) x every Delete/Erase (i,n) with 0<=i, i+n<=L and every Slice window (s,e) in [-L,L]^2 incl. negative spellings and wrap-around (empty windows excluded; ambiguous spans and full-length parts excluded for wrap-around); seeded: lengths<=60, tables<=8 features incl. source features, BasicSequence and seqio.GenBank hosts, GenBank hosts carry generated REFERENCE '(bases a to b; c to d)' lines whose expected clipping is computed by interval arithmetic. Oracle: residues per the window arithmetic; surviving features' base atoms == before minus removed in order and strand; cut ends open (all markers stripped on source after Slice), uncut ends keep their marker (markers on a junction of two abutting expected parts are don't-care); Delete: a feature that lost everything consists of sites at the cut; Erase: it is absent unless source; Slice: features with no base in the window are absent (a feature with a site inside the window is don't-care); coordinates within [0,newlen]; slice is linear; references clipped, re-based, dropped, renumbered. non-trivial: some feature shares a residue with the removed/kept boundary region; distinct: canonical case text. CLI layer: gts delete [-e], gts extract [-v] and gts split of the real binary (--no-cache) on generated records and the corpus record, single and as streams, judged by the C15 models (residues minus the union of the located regions; one record per distinct region, with -v the maximal unlocated stretches; pieces concatenate to the input; a stream's output equals the outputs of its records alone). A third of the GenBank hosts are AA records (REFERENCE lines count residues); a site-only feature that lies clear of the erased stretch must survive Erase. Ambiguous spans take part in wrap-around slices unless the window cuts them."
 }
 func (c03) RequiredBuckets(tier string) []string {
 	var out []string
@@ -561,9 +561,22 @@ func randRefs(r interface{ Intn(int) int }, L int) []seqio.Reference {
 	return out
 }
 
-func hasAmbOrFull(loc gts.Location, L int) bool {
+// hasAmbOrFull: for a wrap-around window [s,L)+[0,e) (e < s) the location holds
+// a full-length part, or an ambiguous span that the window cuts (one that lies
+// wholly in [s,L), wholly in [0,e) or wholly in the left-out [e,s) is kept or
+// dropped as a whole, like any other part).
+func hasAmbOrFull(loc gts.Location, L int, se ...int) bool {
 	for _, p := range model.Parts(loc) {
-		if p.Kind == model.KAmb || (p.Hi-p.Lo == L && p.Kind != model.KSite) {
+		if p.Hi-p.Lo == L && p.Kind != model.KSite {
+			return true
+		}
+		if p.Kind == model.KAmb {
+			if len(se) == 2 {
+				s, e := se[0], se[1]
+				if p.Lo >= s || p.Hi <= e || (p.Lo >= e && p.Hi <= s) {
+					continue
+				}
+			}
 			return true
 		}
 	}
@@ -603,7 +616,7 @@ func (m c03) Run(c *fw.Ctx) {
 					if ns == ne || ns >= L && ne >= L {
 						continue
 					}
-					if ne < ns && (hasAmbOrFull(loc, L) || ns >= L) {
+					if ne < ns && (hasAmbOrFull(loc, L, ns, ne) || ns >= L) {
 						continue
 					}
 					if !c.NextShared() {
@@ -661,7 +674,7 @@ func (m c03) Run(c *fw.Ctx) {
 				// wrap-around: no ambiguous spans / full-length parts.
 				bad := s >= L
 				for _, f := range tab {
-					if hasAmbOrFull(f.Loc, L) {
+					if hasAmbOrFull(f.Loc, L, s, e) {
 						bad = true
 					}
 				}
